@@ -605,6 +605,14 @@ func inlineSite(fset *token.FileSet, info *types.Info, file *ast.File, src []byt
 	if call.Ellipsis.IsValid() {
 		return edit{}, "spread call"
 	}
+	// a helper that is one expression — `return e` — is substituted in place, wherever the call stands
+	// (loop conditions, case expressions, operands of && and ||): parameters are replaced by the
+	// arguments, which must be free of calls and receives since they may now be evaluated 0..n times
+	if e, ok := exprHelper(fd); ok {
+		if ed, why := inlineExpr(fset, info, src, hsrc, hpath, path, call, fd, e); why == "" {
+			return ed, ""
+		}
+	}
 	// enclosing statement that sits in a statement list
 	var stmt ast.Stmt
 	si := -1
@@ -1123,4 +1131,122 @@ func hasRecv(root ast.Node) bool {
 		return !f
 	})
 	return f
+}
+
+// exprHelper: the body is exactly `return <one expression>` and the function has one result.
+func exprHelper(fd *ast.FuncDecl) (ast.Expr, bool) {
+	if fd.Type.Results == nil || len(fd.Type.Results.List) != 1 || len(fd.Type.Results.List[0].Names) > 1 {
+		return nil, false
+	}
+	if len(fd.Body.List) != 1 {
+		return nil, false
+	}
+	rs, ok := fd.Body.List[0].(*ast.ReturnStmt)
+	if !ok || len(rs.Results) != 1 {
+		return nil, false
+	}
+	if hasFuncLit(rs.Results[0]) {
+		return nil, false
+	}
+	return rs.Results[0], true
+}
+
+func hasFuncLit(n ast.Node) bool {
+	f := false
+	ast.Inspect(n, func(m ast.Node) bool {
+		if _, ok := m.(*ast.FuncLit); ok {
+			f = true
+		}
+		return !f
+	})
+	return f
+}
+
+// inlineExpr replaces the call by the helper's expression with arguments substituted.
+func inlineExpr(fset *token.FileSet, info *types.Info, src, hsrc []byte, hpath, path string, call *ast.CallExpr, fd *ast.FuncDecl, e ast.Expr) (edit, string) {
+	if hpath != path && mentionsPackage(e) {
+		return edit{}, "expression names a package and the helper lives in another file"
+	}
+	text := func(b []byte, n ast.Node) string {
+		return string(b[fset.Position(n.Pos()).Offset:fset.Position(n.End()).Offset])
+	}
+	// parameter objects → argument text
+	sub := map[types.Object]string{}
+	pure := func(x ast.Expr) bool { return !hasCall(x) && !hasRecv(x) && !hasFuncLit(x) }
+	if fd.Recv != nil && len(fd.Recv.List) == 1 {
+		sel, ok := ast.Unparen(call.Fun).(*ast.SelectorExpr)
+		if !ok {
+			return edit{}, "method called without a selector"
+		}
+		selection := info.Selections[sel]
+		if selection == nil || len(selection.Index()) != 1 || !pure(sel.X) {
+			return edit{}, "receiver not substitutable"
+		}
+		rx := text(src, sel.X)
+		_, declPtr := fd.Recv.List[0].Type.(*ast.StarExpr)
+		_, havePtr := info.TypeOf(sel.X).Underlying().(*types.Pointer)
+		switch {
+		case declPtr && !havePtr:
+			rx = "&(" + rx + ")"
+		case !declPtr && havePtr:
+			rx = "*(" + rx + ")"
+		}
+		if len(fd.Recv.List[0].Names) == 1 {
+			if obj := info.Defs[fd.Recv.List[0].Names[0]]; obj != nil {
+				sub[obj] = "(" + rx + ")"
+			}
+		}
+	}
+	ai := 0
+	if fd.Type.Params != nil {
+		for _, f := range fd.Type.Params.List {
+			if _, ok := f.Type.(*ast.Ellipsis); ok {
+				return edit{}, "variadic"
+			}
+			names := f.Names
+			if len(names) == 0 {
+				if ai >= len(call.Args) || !pure(call.Args[ai]) {
+					return edit{}, "argument with effects"
+				}
+				ai++
+				continue
+			}
+			for _, n := range names {
+				if ai >= len(call.Args) || !pure(call.Args[ai]) {
+					return edit{}, "argument with effects"
+				}
+				if hpath != path && mentionsPackage(f.Type) {
+					return edit{}, "parameter type names a package and the helper lives in another file"
+				}
+				if obj := info.Defs[n]; obj != nil {
+					sub[obj] = "((" + text(hsrc, f.Type) + ")(" + text(src, call.Args[ai]) + "))"
+				}
+				ai++
+			}
+		}
+	}
+	if ai != len(call.Args) {
+		return edit{}, "argument count differs from parameter count"
+	}
+	// substitute identifiers of e, right to left
+	e0 := fset.Position(e.Pos()).Offset
+	out := []byte(text(hsrc, e))
+	var ids []*ast.Ident
+	ast.Inspect(e, func(n ast.Node) bool {
+		if id, ok := n.(*ast.Ident); ok {
+			if _, isParam := sub[info.Uses[id]]; isParam {
+				ids = append(ids, id)
+			}
+		}
+		return true
+	})
+	sort.Slice(ids, func(i, j int) bool { return ids[i].Pos() > ids[j].Pos() })
+	for _, id := range ids {
+		o := fset.Position(id.Pos()).Offset - e0
+		out = append(append(append([]byte{}, out[:o]...), []byte(sub[info.Uses[id]])...), out[o+len(id.Name):]...)
+	}
+	if bytes.Contains(out, []byte("\n")) {
+		return edit{}, "multi-line expression"
+	}
+	return edit{fset.Position(call.Pos()).Offset, fset.Position(call.End()).Offset, "(" + string(out) + ")"}, ""
 }
